@@ -25,10 +25,11 @@ theorem once_receive (c : Cfg) (n : Nat) (p : RPhase) (st : Nat) (invs : List In
     (invs.filter (fun iv => iv.1 == i)).length ≤ 1 :=
   ascFrom_count_le_one (order c n p st invs h).1 i
 
-/-- **resume**: every receiver pass starts exactly where the previous pass left the cursor — at the filter that asked
-for re-match-route / re-choose-host if the previous pass ended with such a request, and at 0 otherwise; together with
-`order` (no index below the start cursor) earlier filters are not re-run. -/
-theorem resume (c : Cfg) (n : Nat) : resumeOK 0 (run c n init).trace :=
+/-- **resume**: a receiver pass of the same phase as the previous one starts exactly where that pass left the cursor —
+at the filter that asked for re-match-route / re-choose-host if it ended with such a request, at 0 otherwise — and a
+pass of another phase always starts at the first filter (after the second `fix:`); together with `order` (no index below
+the start cursor) earlier filters are not re-run. -/
+theorem resume (c : Cfg) (n : Nat) : resumeOK 0 .BeforeRoute (run c n init).trace :=
   (run_Pinv c n init (init_Pinv c)).resume
 
 /-- **deny_not_forwarded**: if any receiver-filter invocation answered the request (hijack / direct response) or
